@@ -156,7 +156,10 @@ func (m *Thread) Run() {
 			core.LogInfo(m, "Control command name ", interest.Name().String(), " has unexpected number of components - DROP")
 			continue
 		}
-		if !m.localPrefix.IsPrefix(interest.NameV) && !m.nonLocalPrefix.IsPrefix(interest.Name()) {
+		// The link-local prefix is served only if enabled; do not rely on the FIB alone to keep such
+		// Interests away (a route towards the internal face would deliver them anyway)
+		if !m.localPrefix.IsPrefix(interest.NameV) &&
+			!(enableLocalhopManagement && m.nonLocalPrefix.IsPrefix(interest.Name())) {
 			core.LogInfo(m, "Control command name ", interest.Name(), " has unexpected prefix - DROP")
 			continue
 		}
